@@ -11,8 +11,8 @@ import (
 	ouroboros "github.com/blinklabs-io/gouroboros"
 	"github.com/blinklabs-io/gouroboros/protocol/blockfetch"
 	"github.com/blinklabs-io/gouroboros/protocol/chainsync"
-	"github.com/blinklabs-io/gouroboros/protocol/keepalive"
 	pcommon "github.com/blinklabs-io/gouroboros/protocol/common"
+	"github.com/blinklabs-io/gouroboros/protocol/keepalive"
 	"github.com/blinklabs-io/gouroboros/protocol/localstatequery"
 	"github.com/blinklabs-io/gouroboros/protocol/localtxmonitor"
 	"github.com/blinklabs-io/gouroboros/protocol/localtxsubmission"
@@ -261,24 +261,6 @@ func msgTag(b []byte) (uint64, bool) {
 	return n.Items[0].Arg, true
 }
 
-// waitErr drains the connection's error channel until it is closed; returns
-// the errors and whether the channel was closed within the bound.
-func waitErrClosed(c *ouroboros.Connection, d time.Duration) ([]error, bool) {
-	var errs []error
-	deadline := time.After(d)
-	for {
-		select {
-		case e, ok := <-c.ErrorChan():
-			if !ok {
-				return errs, true
-			}
-			errs = append(errs, e)
-		case <-deadline:
-			return errs, false
-		}
-	}
-}
-
 func TestC17(t *testing.T) {
 	rec := evi.New(t, "C17", evi.Exploration,
 		"a real ouroboros.Connection (client or server × NtN/NtC/DMQ × full-duplex requested or not × peer-sharing × keep-alives, callbacks counting on every mini-protocol) handshakes with a raw peer that forces the negotiated version (every version of the mode's table) and its own diffusion / peer-sharing flags; then (a) accessors are compared with the version's protocol set, (b) every enabled protocol of every enabled role gets a minimal round trip (peer request -> responder callback + reply; client call -> request on the wire on the right protocol id and direction -> reply -> call returns), (c) one negative probe: a segment in the direction the negotiation did not enable, or for a protocol the version does not enable / the other mode's protocol / an unknown id: no callback may fire, no answer may be sent, the connection must report an error and close. Reference: roles = spec rule (duplex only NtN and only if both ends asked for it), protocols = spec version table. Non-trivial = every case (a negative probe is always made); distinct by (config, version, peer flags, probe)")
@@ -342,6 +324,9 @@ func TestC17(t *testing.T) {
 		rec.Class(fmt.Sprintf("roles:init=%v,resp=%v", initiator, responder))
 		if duplex {
 			rec.Class("duplex")
+			if cs.Version < 10 {
+				rec.Class("duplex-below-v10(not-judged)")
+			}
 		}
 		if cs.Cfg.FullDuplex != !cs.PeerIO && cs.Cfg.Mode == "ntn" {
 			rec.Class("duplex-asked-by-one-side-only")
